@@ -73,6 +73,14 @@ def corpus(include_big: bool = False) -> List[Model]:
                 continue
             seen.add(m.sha)
             models.append(m)
+        # meta-models of /verif itself: shapes the repository's fixtures do not contain (dense
+        # cross references in descriptions, optional primitives of every kind)
+        extra = pathlib.Path(os.path.dirname(os.path.dirname(os.path.abspath(__file__)))) / "corpus_extra"
+        for p in sorted(extra.glob("*.py")):
+            m = Model("extra/" + p.stem, str(p), p.read_text(encoding="utf-8"))
+            if m.sha not in seen:
+                seen.add(m.sha)
+                models.append(m)
         _corpus = models
     if include_big:
         return list(_corpus)
